@@ -147,6 +147,22 @@ Theorem C08_create_marker_whole : forall (body : list fop) (ps : list piece) (s0
 Proof. exact create_marker_whole. Qed.
 Print Assumptions C08_create_marker_whole.
 
+(* the PINNED way of writing the marker (patch_ids.bin created and written in place) under the repaired id-list check is
+   safe as long as the id list reaches the file in ONE write system call (at most 2048 ids) ... *)
+Theorem C08_crash_safe_marker_last_pinned : forall (body : list fop) (ps : list piece) (s0 : fs) (k : nat),
+  Forall (avoids PIds) body -> s0 PIds = None ->
+  let ops := body ++ ops_create_ids_pinned ps ++ ops_meta_all (created_ids ps) in
+  In (recover_cat true (apply (firstn k ops) s0)) [Err; recover_cat true (apply ops s0)].
+Proof. exact crash_safe_marker_last_pinned. Qed.
+Print Assumptions C08_crash_safe_marker_last_pinned.
+
+(* ... the harness compares a working tree that has only one of the two repairs of the creation with the mixed form
+   (operation list fo, recovery fr); with fo = fr these are the forms above *)
+Theorem C08_mixed_forms_same : forall (b : bool) (w : workload) (k req c : nat) (l : list (path * content)) (chk : bool),
+  c08_case2 b b w k req c = c08_case b w k req c /\ c08_unwound2 b b w l req c chk = c08_unwound b w l req c chk.
+Proof. intros. split; [apply c08_case2_same|apply c08_unwound2_same]. Qed.
+Print Assumptions C08_mixed_forms_same.
+
 (* F35, the PINNED way of writing the marker (in place, through a stdio stream: a list of more than 2048 ids reaches
    patch_ids.bin in several write system calls; here two, delivering l1 and then l2, both non-empty).  Whatever the
    body is and whatever the complete catalog o is: there is a crash point whose state opens WITHOUT an error as the
